@@ -13,6 +13,7 @@ RULE = ('files with 2-4 dimensions (lengths 1-4), 1-4 data variables over a rand
         'std/var only against the Python oracle) or a length-changing callable (numpy.diff, x[::k], numpy.convolve with an '
         'integer kernel in modes full/same/valid), incl. middle axes and mixed reducer/callable; keyword order random. '
         'the documented dict(func1d=f, **kwargs) form for ~30% of the callables (numpy.convolve with v=, mode= keywords); '
+        'numpy.sum/max/min/mean/prod passed as 1-D functions (scalar results, axis kept; unmasked variables); '
         'Malformed stream (~12%): unknown dimension, method without keepdims, missing method. 12% of the cases go through the IOAPI '
         'wrapper (ioapi_base.from_arrays file with (TSTEP,LAY,ROW,COL) variables; data variables, dimension lengths, VGLVLS/NLAYS '
         'compared; TFLAG left to C10) and 12% through the string forms core/_functions.reduce_dim / convolve_dim on the subset they '
@@ -38,6 +39,8 @@ def _gen_func(rng, tier, n):
         return dict(t='red', name=rng.choice(REDS + ['sum', 'mean', 'mean']))
     if r < 0.60 and tier != 'search':
         return dict(t='red', name=rng.choice(['std', 'var']))
+    if r < 0.64 and tier != 'search':
+        return dict(t='callred', name=rng.choice(['sum', 'max', 'min', 'mean', 'prod']))   # numpy.sum etc. passed as 1-D functions
     if r < 0.72 and n >= 2:
         return dict(t='diff')
     if r < 0.82:
@@ -63,7 +66,8 @@ def _one(rng, tier):
     for df in funcs:
         if df[1]['t'] != 'red' and rng.random() < 0.3:
             df[1] = dict(t='dict', inner=df[1])      # applyAlongDimensions(x=dict(func1d=f, **kwargs))
-    use_prod = any(f['t'] == 'red' and f['name'] == 'prod' for _, f in funcs)
+    use_prod = any(_base(f).get('name') == 'prod' for _, f in funcs)
+    callred = any(_base(f)['t'] == 'callred' for _, f in funcs)
     vars_ = []
     nv = rng.randint(1, 4)
     for i in range(nv):
@@ -94,6 +98,8 @@ def _one(rng, tier):
                 o = rng.randrange(size // ln) * ln
                 for j in range(ln):
                     mask[o + j] = 1
+        if callred:
+            mask = None          # numpy.sum(...) on a fully masked lane returns the masked constant: outside the model
         vars_.append(dict(name='ABCD'[i], dtype=dtype, dims=vd, data=data, den=den, mask=mask))
     for d in names:
         if rng.random() < 0.35:
@@ -217,6 +223,8 @@ def _pyfunc(f):
         return f['name']
     if f['t'] == 'diff':
         return np.diff
+    if f['t'] == 'callred':
+        return getattr(np, f['name'])
     if f['t'] == 'sub':
         st = f['step']
         return lambda a: a[::st]
@@ -334,6 +342,8 @@ def _cell_out(x):
 def _fdesc(f):
     if f['t'] == 'red':
         return NAMED.get(f['name'])
+    if f['t'] == 'callred':
+        return NAMED[f['name']]
     if f['t'] == 'diff':
         return 'FDiff'
     if f['t'] == 'sub':
@@ -425,6 +435,10 @@ def _lanewise(func, a, k):
 
 def _apply1(a, k, f):
     import numpy as np
+    if f['t'] == 'dict' and f['inner']['t'] == 'callred':
+        f = f['inner']
+    if f['t'] == 'callred':
+        return getattr(np, f['name'])(np.asarray(a), axis=k, keepdims=True)
     if f['t'] == 'red':
         a = np.ma.masked_array(a)
         return getattr(np.ma, f['name'])(a, axis=k, keepdims=True) if hasattr(np.ma, f['name']) else getattr(a, f['name'])(axis=k, keepdims=True)
@@ -469,7 +483,7 @@ def py_check(case, obs):
         for d, n in case['dims']:
             if d in fd:
                 f = fd[d]
-                exp_dims.append([d, 1 if f['t'] == 'red' else len(_pyfunc(_base(f))(np.arange(n)))])
+                exp_dims.append([d, 1 if _base(f)['t'] in ('red', 'callred') else len(_pyfunc(_base(f))(np.arange(n)))])
             else:
                 exp_dims.append([d, n])
         if obs['dims'] != exp_dims:
@@ -554,7 +568,10 @@ LEVEL_TEXT = ('Theorems (Props/C03.v, all closed under the global context) over 
               'axes, any rank/shape, masked-aware (C03_reducers_any_order, C03_masked_reducers_any_order, C03_masked_iff_all_masked, '
               'C03_sum_prod_any_order); the code ignores naming order (C03_naming_order_irrelevant); integer-valued variables stay '
               'integer-valued under sum/prod/min/max/diff/sub-sampling/integer-kernel convolution while mean is fractional '
-              '(C03_integer_lanes_stay_integer, C03_integer_vars_stay_integer, C03_mean_fractional). Tie H: library vs model on every '
+              '(C03_integer_lanes_stay_integer, C03_integer_vars_stay_integer, C03_mean_fractional); an in-domain call completes for every '
+              'well-formed file (C03_completes, C03_reducers_usable, C03_callables_usable, C03_diff_sub_uniform). Tie T: 14 statement anchors of '
+              'applyAlongDimensions, the IOAPI wrapper and reduce_dim/convolve_dim regenerated into Gen/C03Src.v every run '
+              '(C03_source_is_model). Tie H: library vs model on every '
               'generated case incl. exception classes, through PseudoNetCDFFile.applyAlongDimensions, the IOAPI wrapper (data, dims, '
               'VGLVLS via the same model call) and the string forms reduce_dim/convolve_dim. No known finding is left: the two defects of '
               'applyAlongDimensions and the string forms\' unmasking of untouched variables are repaired (known_findings fixed:, corpus '
@@ -564,3 +581,106 @@ LEVEL_NOTE = ('Trusted: Coq kernel + vm_compute; the harness; numpy axis semanti
               'dtypes are checked by the oracle, the model only proves the value class; IOAPI TFLAG/VAR-LIST metadata after the call is '
               'C10; reduce_dim weights/bounds-variable forms and fuzzy dimension names are not driven.')
 TECHNIQUE = 'Coq proof (induction over axis lists / permutations, fold exchange) + vm_compute refutation witness + differential correspondence'
+
+
+# ----------------------------------------------------------------------------- tie T
+def translate():
+    """Re-read from the source, on every run, the statements Model/Apply.v transcribes and write them as the record
+    coq/Gen/C03Src.v src_apply; Props/C03.v proves src_apply = model_apply.  A changed statement flips its field, the
+    theorem no longer checks (broken obligation -> failing-input search)."""
+    import ast
+    import os
+    from harness import common as C
+    out = []
+
+    def ob(anchor, ok, detail='statement changed'):
+        out.append(dict(anchor=anchor, ok=bool(ok), detail='' if ok else detail))
+    un = lambda n: ast.unparse(n).strip()
+    v = dict.fromkeys(['enum', 'reverse', 'named_test', 'reducer', 'callable', 'dtype', 'assign', 'len_named', 'len_call', 'coord',
+                       'dims', 'ioapi', 'reduce_dim', 'convolve_dim'], False)
+    try:
+        t = ast.parse(open(os.path.join(C.SRC, 'PseudoNetCDF', 'core', '_files.py')).read())
+        cls = [n for n in t.body if isinstance(n, ast.ClassDef) and n.name == 'PseudoNetCDFFile'][0]
+        f = [n for n in cls.body if isinstance(n, ast.FunctionDef) and n.name == 'applyAlongDimensions'][0]
+        vloop = [n for n in f.body if isinstance(n, ast.For) and un(n.iter) == 'self.variables.items()']
+        if len(vloop) == 1:
+            vl = vloop[0]
+            sts = [un(n) for n in vl.body]
+            v['enum'] = 'dik = list(enumerate(vdims))' in sts and 'vdims = varo.dimensions' in sts and 'newvals = varo[...]' in sts
+            inner = [n for n in vl.body if isinstance(n, ast.For)]
+            if len(inner) == 1:
+                il = inner[0]
+                v['reverse'] = un(il.iter) == 'dik[::-1]' and un(il.target) in ('(di, dk)', 'di, dk')
+                tests = [n for n in il.body if isinstance(n, ast.If)]
+                v['named_test'] = len(il.body) == 1 and len(tests) == 1 and un(tests[0].test) == 'dk in dimfuncs' and not tests[0].orelse
+                if tests:
+                    body = tests[0].body
+                    asg = [un(n) for n in ast.walk(tests[0]) if isinstance(n, ast.Assign)]
+                    branch = [n for n in body if isinstance(n, ast.If) and un(n.test) == 'noopts and isinstance(dfunc, str)']
+                    v['reducer'] = (len(branch) == 1 and [un(b) for b in branch[0].body] == ['newvals = getattr(newvals, dfunc)(axis=di, keepdims=True)'])
+                    v['callable'] = ('opts = dict(axis=di, arr=newvals)' in asg and 'dfunc = dimfuncs[dk]' in asg
+                                     and "opts['func1d'] = dfunc" in asg and len(branch) == 1
+                                     and un(branch[0].orelse[0]) == 'newvals = np.apply_along_axis(**opts)'
+                                     and any(isinstance(n, ast.Expr) and un(n) == 'opts.update(dfunc)' for n in ast.walk(tests[0])))
+            v['dtype'] = 'newvaro = outf.copyVariable(varo, key=vark, dtype=newvals.dtype, withdata=False)' in sts
+            v['assign'] = sts[-1] == 'newvaro[...] = newvals'
+        dloop = [n for n in f.body if isinstance(n, ast.For) and un(n.iter) == 'dimfuncs.items()']
+        if len(dloop) == 1:
+            asg = [un(n) for n in ast.walk(dloop[0]) if isinstance(n, ast.Assign)]
+            v['len_named'] = 'newdl = getattr(dvar[...], df)(keepdims=True).size' in asg
+            v['len_call'] = 'newdl = df(dvar[:]).size' in asg and "newdl = dfopts.pop('func1d')(dvar[:], **dfopts).size" in asg and 'dfopts = dict(df)' in asg
+            ifs = [n for n in ast.walk(dloop[0]) if isinstance(n, ast.If)]
+            v['coord'] = ('dvar = self.variables[dk]' in asg and asg.count('dvar = np.arange(len(dv))') == 2
+                          and any(un(n.test) == 'dk in self.variables' for n in ifs) and any(un(n.test) == 'dvar.ndim != 1' for n in ifs)
+                          and 'dimlens[dk] = newdl' in asg)
+        cl = [n for n in f.body if isinstance(n, ast.For) and un(n.iter) == 'self.dimensions.items()']
+        v['dims'] = any([un(b) for b in n.body] == ['newdl = dimlens[dk]', 'outf.copyDimension(dv, key=dk, dimlen=newdl)'] for n in cl)
+    except Exception as e:
+        ob('core/_files.py: parse applyAlongDimensions', False, str(e)[:300])
+    try:
+        t = ast.parse(open(os.path.join(C.SRC, 'PseudoNetCDF', 'cmaqfiles', '_ioapi.py')).read())
+        cls = [n for n in t.body if isinstance(n, ast.ClassDef) and n.name == 'ioapi_base'][0]
+        f = [n for n in cls.body if isinstance(n, ast.FunctionDef) and n.name == 'applyAlongDimensions'][0]
+        sts = [un(n) for n in ast.walk(f) if isinstance(n, (ast.Assign, ast.Return, ast.Expr))]
+        v['ioapi'] = ('outf = PseudoNetCDFFile.applyAlongDimensions(self, *args, **kwds)' in sts
+                      and "newlayf = layf.applyAlongDimensions(lay=kwds['LAY'])" in sts
+                      and 'layb[:, 0] = self.VGLVLS[:-1]' in sts and 'layb[:, 1] = self.VGLVLS[1:]' in sts
+                      and "nlayb = newlayf.variables['lay_bounds']" in sts
+                      and 'outf.VGLVLS = np.append(nlayb[:, 0], nlayb[-1, 1]).view(np.ndarray)' in sts and 'return outf' in sts)
+    except Exception as e:
+        ob('cmaqfiles/_ioapi.py: parse ioapi_base.applyAlongDimensions', False, str(e)[:300])
+    try:
+        t = ast.parse(open(os.path.join(C.SRC, 'PseudoNetCDF', 'core', '_functions.py')).read())
+        fns = {n.name: n for n in t.body if isinstance(n, ast.FunctionDef)}
+        rs = [un(n) for n in ast.walk(fns['reduce_dim']) if isinstance(n, (ast.Assign, ast.Expr))]
+        v['reduce_dim'] = ('axis = list(var.dimensions).index(dimkey)' in rs and 'vreshape = var[slice(None)]' in rs
+                           and 'vout = _getfunc(vreshape, func)(axis=axis, keepdims=True)' in rs
+                           and 'outf.copyVariable(var, key=varkey)' in rs
+                           and "outfunc = getattr(a, func)" in [un(n) for n in ast.walk(fns['_getfunc']) if isinstance(n, ast.Assign)])
+        cs = [un(n) for n in ast.walk(fns['convolve_dim']) if isinstance(n, (ast.Assign, ast.Expr))]
+        v['convolve_dim'] = ('axisi = list(var.dimensions).index(dimkey)' in cs
+                             and 'values = np.apply_along_axis(func1d=lambda x_: np.convolve(weights, x_, mode=mode), axis=axisi, arr=var[:])' in cs
+                             and 'outf.variables[vark][:] = values' in cs and 'outf.copyVariable(var, key=vark)' in cs
+                             and 'dim = outf.createDimension(dimkey, len(np.convolve(weights, np.arange(len(dim)), mode=mode)))' in cs)
+    except Exception as e:
+        ob('core/_functions.py: parse reduce_dim / convolve_dim', False, str(e)[:300])
+    names = dict(enum='dik = list(enumerate(vdims))', reverse='for di, dk in dik[::-1]', named_test='if dk in dimfuncs',
+                 reducer='getattr(newvals, dfunc)(axis=di, keepdims=True)', callable='np.apply_along_axis(**opts) with opts = dict(axis=di, arr=newvals) + func1d/dict',
+                 dtype='copyVariable(varo, key=vark, dtype=newvals.dtype, withdata=False)', assign='newvaro[...] = newvals',
+                 len_named='newdl = getattr(dvar[...], df)(keepdims=True).size', len_call='newdl = df(dvar[:]).size / dict form',
+                 coord='1-D coordinate variable else arange', dims='copyDimension(dv, key=dk, dimlen=dimlens[dk]) for every dimension',
+                 ioapi='ioapi_base.applyAlongDimensions: core call + VGLVLS from layf.applyAlongDimensions', reduce_dim='reduce_dim statements',
+                 convolve_dim='convolve_dim statements')
+    order = ['enum', 'reverse', 'named_test', 'reducer', 'callable', 'dtype', 'assign', 'len_named', 'len_call', 'coord', 'dims',
+             'ioapi', 'reduce_dim', 'convolve_dim']
+    for k in order:
+        ob('applyAlongDimensions source: %s' % names[k], v[k])
+    text = ('(* GENERATED by harness/props/c03.py translate() from src/PseudoNetCDF/core/_files.py, cmaqfiles/_ioapi.py and '
+            'core/_functions.py on every run - do not edit. *)\nFrom PNC Require Import Base.Util Base.NdApply Model.Apply.\n'
+            'Definition src_apply : apply_src := ASrc %s.\n') % ' '.join('true' if v[k] else 'false' for k in order)
+    path = os.path.join(C.COQ, 'Gen', 'C03Src.v')
+    os.makedirs(os.path.dirname(path), exist_ok=True)
+    if not os.path.exists(path) or open(path).read() != text:
+        with open(path, 'w') as fh:
+            fh.write(text)
+    return out
